@@ -35,7 +35,7 @@ _UF = {}
 
 
 def uf(name, arity=1, sort=None):
-    sort = sort or z3.RealSort()
+    sort = sort if sort is not None else z3.RealSort()
     k = (name, arity, str(sort))
     if k not in _UF:
         _UF[k] = z3.Function(name, *([sort] * arity), sort)
